@@ -209,9 +209,12 @@ func (ix *Index) minIdle(limit int) int {
 	return m
 }
 
+type ohead struct{ pos, n, cycles int }
+
 func oC18(ix *Index) []Violation {
 	var out []Violation
 	cfg := ix.C.Cfg
+	var overheads []ohead
 	check := func(p int, sn *Snap, what string) {
 		if sn == nil || !sn.OKSnap || ix.lifeInProgress(p) {
 			return
@@ -223,17 +226,23 @@ func oC18(ix *Index) []Violation {
 		if sn.Status == "Running" && ix.modelState(p) == "Running" && sn.InFlight == 0 && sn.Proc == 0 && sn.Idle < 1 {
 			out = append(out, v("C18", "no-idle-worker", "at %s %d the worker is Running with nothing in flight and %d idle workers", what, p, sn.Idle))
 		}
-		if sn.Status == "Running" || sn.Status == "Paused" {
-			want := 1 + sn.Idle + sn.InFlight
-			if cfg.ExpiryUs > 0 {
-				want++
+		if (sn.Status == "Running" || sn.Status == "Paused") && ix.modelState(p) == sn.Status && sn.Proc == sn.InFlight {
+			// goroutines the worker runs besides its pool (event loop, remover, context listener ...): how many
+			// there are is the implementation's business, but they must not pile up over Stop/Restart cycles
+			overhead := sn.LiveLib - sn.Idle - sn.InFlight
+			cycles := 0
+			for _, op := range []string{"restart", "stop", "waitstop"} {
+				for _, c := range ix.ByOp[op] {
+					if c.Returned() && c.Ret < p {
+						cycles++
+					}
+				}
 			}
-			if cfg.Ctx && !ix.ctxCancelledBefore(p) {
-				want++
+			ctxGone := 0
+			if cfg.Ctx && ix.ctxCancelledBefore(p) {
+				ctxGone = 1
 			}
-			if sn.LiveLib != want && ix.modelState(p) == sn.Status && sn.Proc == sn.InFlight {
-				out = append(out, v("C18", "goroutine-count", "at %s %d (%s): %d live library goroutines, expected %d = dispatcher + reaper(%v) + context listener(%v) + %d idle + %d busy workers", what, p, sn.Status, sn.LiveLib, want, cfg.ExpiryUs > 0, cfg.Ctx, sn.Idle, sn.InFlight))
-			}
+			overheads = append(overheads, ohead{p, overhead + ctxGone, cycles})
 		}
 		if cfg.ExpiryUs > 0 && sn.Status == "Running" && ix.modelState(p) == "Running" {
 			// last activity
@@ -262,6 +271,13 @@ func oC18(ix *Index) []Violation {
 	}
 	if ix.Completed {
 		check(ix.FinalPos, ix.Final, "final point")
+	}
+	for _, a := range overheads {
+		for _, b := range overheads {
+			if b.cycles > a.cycles && b.n > a.n {
+				out = append(out, v("C18", "goroutines-accumulate", "at rest the worker ran %d goroutines besides its pool workers after %d Stop/Restart calls (position %d) and %d after %d calls (position %d)", a.n, a.cycles, a.pos, b.n, b.cycles, b.pos))
+			}
+		}
 	}
 	if ix.Stopped != nil && ix.Stopped.LiveLib != 0 {
 		out = append(out, v("C18", "leak-after-stop", "after Stop returned and everything settled %d goroutines started by the library are still alive: %s", ix.Stopped.LiveLib, ix.StoppedEv.S))
